@@ -22,10 +22,14 @@ def derived_methods(chk, prog):
     W = lambda c, m: f"{c.module.rel}:{c.methods[m].lineno}"
     r = ev.eval_fn(g.methods["importance"], g.module, g)
     chk.require(r.ret == ("call", ("attr", SELF, "generate"), (P("key"), P("constraint"), P("args")), ()), "DELEG-ROLE", "GenerativeFunction.importance", "importance == generate", derived=show(r.ret), expected="self.generate(key, constraint, args)", where=W(g, "importance"))
-    r = ev.eval_fn(g.methods["update"], g.module, g)
-    E = ("call", ("attr", ("ctor", "Update", (P("constraint"),), ()), "edit"), (P("key"), P("trace"), P("argdiffs")), ())
+    # update is the primitive Update edit performed BY SELF: `Update(c).edit(key, trace, argdiffs)` dispatches on trace.get_gen_fn(), which for a closure / kwargs
+    # wrapper is the wrapped function - it never sees the stored arguments (g.edit works, g.update raised or silently used default arguments)
+    evu = Evaluator(prog)
+    evu.opaque_methods.add("edit")
+    r = evu.eval_fn(g.methods["update"], g.module, g)
+    E = ("call", ("attr", SELF, "edit"), (P("key"), P("trace"), ("ctor", "Update", (P("constraint"),), ()), P("argdiffs")), ())
     want = ("tuple", (mk_proj(E, 0), mk_proj(E, 1), mk_proj(E, 2), ("attr", mk_proj(E, 3), "constraint")))
-    chk.require(r.ret == want, "DELEG-ROLE", "GenerativeFunction.update", "Update(constraint).edit(key, trace, argdiffs); backward constraint unwrapped", derived=show(r.ret)[:300], expected=show(want)[:300], where=W(g, "update"))
+    chk.require(r.ret == want, "DELEG-ROLE", "GenerativeFunction.update", "self.edit(key, trace, Update(constraint), argdiffs); backward constraint unwrapped", derived=show(r.ret)[:300], expected=show(want)[:300], where=W(g, "update"))
     r = ev.eval_fn(g.methods["propose"], g.module, g)
     tr = ("call", ("attr", SELF, "simulate"), (P("key"), P("args")), ())
     want = ("tuple", tuple(("call", ("attr", tr, a), (), ()) for a in ("get_choices", "get_score", "get_retval")))
